@@ -88,7 +88,8 @@ def block_record(name: str, b: Any, up: str, pids: PayloadIds | None) -> Dict[st
         rec["rk"] = str(b.kind)
         rec["header"] = "" if b.header is None else str(b.header)
         rec["exiting"] = "" if b.exiting is None else str(b.exiting)
-        rec["pp"] = "" if b.parent_region is None else str(b.parent_region.name)
+        pr = b.parent_region
+        rec["pp"] = "" if pr is None else (str(pr.name) if hasattr(pr, "name") else "!" + type(pr).__name__ + ":" + str(pr))
         sr = b.subregion
         rec["sr"] = "" if sr is None else str(sr.region.name)
     return rec
